@@ -578,14 +578,18 @@ Lemma gen_outer_holds :
   forallb (history_free_entry []) hinting_instance_table = true.
 Proof. repeat split; vm_compute; reflexivity. Qed.
 
+(* the Auto arm does not let the replaced autohinter instance reach the new one *)
+Lemma gen_auto_discipline_holds : gen_auto_reuse = false.
+Proof. vm_compute. reflexivity. Qed.
+
 Theorem outer_history_free run inner_cfg cff auto s s' cfg :
   outer_reconfigure run inner_cfg cff auto setup_table gen_reset_fields hinting_instance_table
-                    cff_subfonts_cleared s cfg =
+                    cff_subfonts_cleared gen_auto_reuse s cfg =
   outer_reconfigure run inner_cfg cff auto setup_table gen_reset_fields hinting_instance_table
-                    cff_subfonts_cleared s' cfg.
+                    cff_subfonts_cleared gen_auto_reuse s' cfg.
 Proof.
   destruct gen_outer_holds as (Hc & _ & _ & Ht).
-  unfold outer_reconfigure. rewrite Hc.
+  unfold outer_reconfigure. rewrite Hc. rewrite gen_auto_discipline_holds.
   assert (E1 : forall new, pick hinting_instance_table "size" new (o_size s) = pick hinting_instance_table "size" new (o_size s'))
     by (intros; vm_compute; reflexivity).
   assert (E2 : forall new, pickl hinting_instance_table "coords" new (o_coords s) = pickl hinting_instance_table "coords" new (o_coords s'))
@@ -599,6 +603,46 @@ Proof.
              (match o_kind s with KGlyf i => i | _ => [] end)
              (match o_kind s' with KGlyf i => i | _ => [] end)).
   reflexivity.
+Qed.
+
+(* after a reconfigure to the autohinter the metrics cache is empty, whatever the instance was before *)
+Theorem outer_auto_cache_fresh run inner_cfg cff auto s cfg :
+  oc_engine cfg = EAuto -> oc_fmt cfg <> FNone ->
+  exists i, o_kind (snd (outer_reconfigure run inner_cfg cff auto setup_table gen_reset_fields
+                           hinting_instance_table cff_subfonts_cleared gen_auto_reuse s cfg)) = KAuto i [].
+Proof.
+  intros He Hf. unfold outer_reconfigure. rewrite He, gen_auto_discipline_holds.
+  destruct (oc_fmt cfg); try contradiction; cbn [snd o_kind]; eexists; reflexivity.
+Qed.
+
+(* draws through a cache that only holds metrics of the instance's own location return exactly the metrics of
+   that location and keep the cache sound: results are a function of (location, style), in any order *)
+Lemma cache_sound_nil compute coords : cache_sound compute coords [].
+Proof. intros st m H. discriminate. Qed.
+
+Lemma auto_get_sound compute coords c st :
+  cache_sound compute coords c ->
+  snd (auto_get compute coords c st) = compute coords st /\
+  cache_sound compute coords (fst (auto_get compute coords c st)).
+Proof.
+  intros H. unfold auto_get. destruct (cache_get st c) as [m|] eqn:E; cbn [fst snd].
+  - split; [apply H; exact E|exact H].
+  - split; [reflexivity|]. intros st' m' H'. cbn [cache_get] in H'.
+    destruct (Z.eqb_spec st st') as [->|Hne]; [inversion H'; reflexivity|apply H; exact H'].
+Qed.
+
+Theorem auto_draws_function_of_location compute coords sts : forall c,
+  cache_sound compute coords c ->
+  snd (auto_draw_all compute coords c sts) = map (compute coords) sts /\
+  cache_sound compute coords (fst (auto_draw_all compute coords c sts)).
+Proof.
+  induction sts as [|st r IH]; intros c H; cbn [auto_draw_all map].
+  - split; [reflexivity|exact H].
+  - destruct (auto_get_sound compute coords c st H) as [E1 S1].
+    destruct (auto_get compute coords c st) as [c1 m] eqn:G. cbn [fst snd] in *.
+    destruct (IH c1 S1) as [E2 S2].
+    destruct (auto_draw_all compute coords c1 r) as [c2 ms]. cbn [fst snd] in *.
+    subst. split; [reflexivity|exact S2].
 Qed.
 
 (* ------------------------------------------------------------------ location *)
